@@ -51,6 +51,6 @@ INSTANCES = [
      'defs': {'VF_NL2': 2, 'VF_NCPU': 4}, 'unwind': 6, 'timeout': 900, 'tiers': ['experimental'],
      'bounds': '<= 2 L2 groups x <= 2 cpus, <= 2 L3 groups'},
     {'name': 'topo_dev', 'src': 'topo.cpp', 'engine': 'cbmc', 'repo_sources': ['dispenso/cpu_set.cpp'],
-     'defs': {'VF_S0': 2, 'VF_S1': 2, 'VF_S2': 0, 'VF_L3LIT': 11}, 'unwind': 8, 'unwind_fn': {BUILD: 20}, 'checks': ['--div-by-zero-check', '--paths', 'lifo'], 'solver': 'minisat', 'rt_extra': ['harness/C43/topo_rt.c'], 'timeout': 200, 'tiers': ['dev'], 'mem_gb': 10,
+     'defs': {'VF_S0': 2, 'VF_S1': 2, 'VF_S2': 2}, 'unwind': 8, 'unwind_fn': {BUILD: 20, 'vf_memmove': 9, 're:scanGroup': 40, 'vf_main': 20}, 'ptrdiff': True, 'checks': ['--div-by-zero-check', '--paths', 'lifo'], 'solver': 'minisat', 'rt_extra': ['harness/C43/topo_rt.c'], 'timeout': 900, 'tiers': ['dev'], 'mem_gb': 10,
      'bounds': 'dev'},
 ]
